@@ -1249,10 +1249,17 @@ fn append_to_commitlog(
         }
     }
 
-    if publish.payload.is_empty() {
-        datalog.remove_from_retained_publishes(topic.to_owned());
-    } else if publish.retain {
-        datalog.insert_to_retained_publishes(publish.clone(), properties.clone(), topic.to_owned());
+    // only a publish flagged retain touches the retained store: an empty payload clears it
+    if publish.retain {
+        if publish.payload.is_empty() {
+            datalog.remove_from_retained_publishes(topic.to_owned());
+        } else {
+            datalog.insert_to_retained_publishes(
+                publish.clone(),
+                properties.clone(),
+                topic.to_owned(),
+            );
+        }
     }
 
     // after recording retained message, we also send that message to existing subscribers
@@ -1320,10 +1327,17 @@ fn append_will_message(
         }
     }
 
-    if publish.payload.is_empty() {
-        datalog.remove_from_retained_publishes(topic.to_owned());
-    } else if publish.retain {
-        datalog.insert_to_retained_publishes(publish.clone(), properties.clone(), topic.to_owned());
+    // only a publish flagged retain touches the retained store: an empty payload clears it
+    if publish.retain {
+        if publish.payload.is_empty() {
+            datalog.remove_from_retained_publishes(topic.to_owned());
+        } else {
+            datalog.insert_to_retained_publishes(
+                publish.clone(),
+                properties.clone(),
+                topic.to_owned(),
+            );
+        }
     }
 
     // after recording retained message, we also send that message to existing subscribers
